@@ -48,7 +48,7 @@ pub fn snap_diff(a: &Snapshot, b: &Snapshot) -> Option<String> {
     None
 }
 
-pub trait Uni: Clone + Send + Sync + Merge + Serialize + DeserializeOwned + std::fmt::Debug + std::iter::FromIterator<f64> + for<'a> std::iter::FromIterator<&'a f64> {
+pub trait Uni: Clone + Merge + Serialize + DeserializeOwned + std::fmt::Debug + std::iter::FromIterator<f64> + for<'a> std::iter::FromIterator<&'a f64> {
     const NAME: &'static str;
     /// highest central-moment order the type reports (0 for Min/Max)
     const ORDER: usize;
@@ -485,7 +485,7 @@ impl Uni for Max {
 }
 
 /// Two values per observation.
-pub trait Pair: Clone + Send + Sync + Merge + Serialize + DeserializeOwned + std::fmt::Debug + std::iter::FromIterator<(f64, f64)> + for<'a> std::iter::FromIterator<&'a (f64, f64)> {
+pub trait Pair: Clone + Merge + Serialize + DeserializeOwned + std::fmt::Debug + std::iter::FromIterator<(f64, f64)> + for<'a> std::iter::FromIterator<&'a (f64, f64)> {
     const NAME: &'static str;
     fn new() -> Self;
     fn default_() -> Self;
